@@ -114,8 +114,8 @@ def selected_output(draw, M, n):
     for k in draw(st.lists(st.sampled_from(sorted(SO_LISTS)), max_size=4, unique=True)):
         pool = SO_LISTS[k] + (ZZ_LISTS.get(k, []) if M.zz else [])
         L.append(" -%s %s" % (k, " ".join(draw(st.lists(st.sampled_from(pool), min_size=1, max_size=4, unique=True)))))
-    if len(L) == 1 or r is False:
-        L.append(" -ph true")
+    if not any(l.endswith(" true") or l.split()[0] in ("-" + k for k in SO_LISTS) for l in L[1:] if not l.startswith((" -reset", " -high"))):
+        L.append(" -ph true")       # every definition has at least one column
     return "\n".join(L)
 
 
